@@ -18,6 +18,6 @@ for id in "$@"; do
   VERIF_DIR=/tmp/mutant-verif-$$ 
   mkdir -p $VERIF_DIR; cp /verif/known-findings.json $VERIF_DIR/ 2>/dev/null
   OUT=$(VERIF_DIR=$VERIF_DIR /verif/check "$id" quick 2>&1); code=$?
-  echo "$(basename "$P") $id exit=$code $(echo "$OUT" | grep -c '^VIOLATION') violation line(s): $(echo "$OUT" | grep '^violation' | head -3 | cut -c1-160 | tr '\n' ';')"
+  echo "$(basename "$P") $id exit=$code $(echo "$OUT" | grep -a -c '^VIOLATION') violation line(s): $(echo "$OUT" | grep -a "^violation" | head -3 | cut -c1-160 | tr '\n' ';')"
   rm -rf $VERIF_DIR
 done
